@@ -23,8 +23,9 @@ Sub-checks
   certself  tripwire for the certificate code itself: wrong projections must be rejected, exact ones accepted.
 
 Translator tie (regen_closures): gen/c04_py2coq.py regenerates, from the CURRENT source, the flag handling / argument forwarding /
-  callee names of the six QOperation.func_calc_proj_* factories and the assembly rule of MProcess.calc_proj_ineq_constraint_with_var;
-  coq/gen/C04_Equiv.v (11 theorems) is re-checked against that text on every run; if the tie breaks the `closures` sweep is widened.
+  callee names of the six QOperation.func_calc_proj_* factories, the assembly rule of MProcess.calc_proj_ineq_constraint_with_var, the integer
+  layout of mprocess.convert_var_to_hss / convert_hss_to_var and the default flag of the eight static calc_proj_*_constraint_with_var;
+  coq/gen/C04_Equiv.v (14 theorems) is re-checked against that text on every run; if the tie breaks the `closures` sweep is widened.
 
 Tolerances (documented constants)
   TOL_EQ    1e-9 * max(1, scale)        model vs implementation, equality projections (rounding is ~1e-16*scale)
@@ -153,6 +154,34 @@ def operators(T, c, x, m):
     if T == "gate":
         return [np.array(to_choi_from_hs_with_sparsity(c, x.reshape(n, n)), dtype=complex)]
     return [np.array(to_choi_from_hs_with_sparsity(c, x[i * n * n:(i + 1) * n * n].reshape(n, n)), dtype=complex) for i in range(m)]
+
+
+# ---------------------------------------------------------------------------------- memory layouts of the argument
+def layouts(var0):
+    """the same real parameter vector in other memory layouts: a strided (non-contiguous) view and a read-only array"""
+    big = np.full(2 * var0.size + 1, 7.25)
+    big[1::2][:var0.size] = var0
+    strided = big[1::2][:var0.size]
+    ro = var0.copy(); ro.flags.writeable = False
+    return [("strided-view", strided, lambda: np.array_equal(big[1::2][:var0.size], var0) and bool((big[0::2] == 7.25).all())),
+            ("read-only", ro, lambda: np.array_equal(ro, var0))]
+
+
+def check_layouts(ctx, sub, site, fn, var0, out, what, case):
+    """fn(var) must return bitwise the same point for every layout of the same values, without raising and without touching the array"""
+    for nm, v, intact in layouts(var0):
+        try:
+            o = np.array(fn(v), dtype=np.float64)
+        except Exception as e:
+            if is_truncate_error(e):
+                raise
+            ctx.violation(sub, site, "raises-on-layout:" + type(e).__name__, "%s raises %s (%s) for a %s of the same values" % (what, type(e).__name__, str(e)[:80], nm), dict(case, layout=nm))
+            continue
+        ctx.count(sub, key=None, nontrivial=False, label="layout/" + nm)
+        if not intact():
+            ctx.violation(sub, site, "mutates-argument", "%s modified its argument (or its neighbourhood) given as a %s" % (what, nm), dict(case, layout=nm))
+        if o.shape != np.shape(out) or not np.array_equal(o, out):
+            ctx.violation(sub, site, "depends-on-memory-layout", "%s returns a different point (max change %.3e) for a %s of the same values" % (what, maxabs(o, out), nm), dict(case, layout=nm))
 
 
 # ---------------------------------------------------------------------------------- harness-side references (tripwires only)
@@ -440,6 +469,8 @@ def chk_eq(ctx, case):
         out = C.calc_proj_eq_constraint_with_var(c, var, on_para_eq_constraint=f)
         out = np.array(out, dtype=np.float64).copy()
         ctx.count("eq", key=(T, case["sys"], m, f, case["seed"], "var"), nontrivial=nontriv, label="var/%s/%s" % (T, "T" if f else "F"))
+        check_layouts(ctx, "eq", name + ".calc_proj_eq_constraint_with_var", lambda v, f=f: C.calc_proj_eq_constraint_with_var(c, v, on_para_eq_constraint=f),
+                      var0, out, "calc_proj_eq_constraint_with_var(flag %s)" % f, dict(case, flag_var=f))
         mutated = not np.array_equal(var, var0)
         diag = ""
         if T == "mprocess" and d <= 3 and m <= 3:
@@ -652,6 +683,8 @@ def _ineq_body(ctx, case, atol, default_settings):
         out = np.array(C.calc_proj_ineq_constraint_with_var(c, v1, on_para_eq_constraint=flag), dtype=np.float64)
         if not np.array_equal(v1, var0):
             ctx.violation("ineq", name + ".calc_proj_ineq_constraint_with_var", "mutates-argument", "var modified in place (flag %s) (%s)" % (flag, bucket), case)
+        check_layouts(ctx, "ineq", name + ".calc_proj_ineq_constraint_with_var", lambda v: C.calc_proj_ineq_constraint_with_var(c, v, on_para_eq_constraint=flag),
+                      var0, out, "calc_proj_ineq_constraint_with_var(flag %s)" % flag, case)
         pv = np.array(p.to_var(), dtype=np.float64)
         if maxabs(out, pv) > tolv:
             ctx.violation("ineq", name + ".calc_proj_ineq_constraint_with_var", "object-vs-variable",
@@ -851,6 +884,23 @@ def chk_closures(ctx, case):
                 if maxabs(a, b) > (tol if what == "eq" else 10 * tolv):
                     ctx.violation("closures", name + ".calc_proj_%s%s_with_var" % (what, "" if what == "physical" else "_constraint"), "object-vs-variable",
                                   "static variable-level %s projection and to_var(object-level projection) differ by %.3e at flag %s (%s/%s/scale=%g)" % (what, maxabs(a, b), eff, T, case["sys"], scale), case)
+        # non-default object configuration must not change the point: the projections read only the parameters and the flag
+        for eff in (True, False):
+            o_def = build(T, c, x, m, eff)
+            o_cfg = build(T, c, x, m, eff, is_estimation_object=False, on_algo_eq_constraint=False, on_algo_ineq_constraint=False,
+                          mode_proj_order="ineq_eq", eps_proj_physical=1e-3)
+            for what in ("eq", "ineq"):
+                a = stacked(getattr(o_def, "calc_proj_%s_constraint" % what)()); b = stacked(getattr(o_cfg, "calc_proj_%s_constraint" % what)())
+                if a.shape != b.shape or not np.array_equal(a, b):
+                    ctx.violation("closures", name + ".calc_proj_%s_constraint" % what, "depends-on-object-configuration",
+                                  "the %s projection of an object with non-default is_estimation_object / on_algo_* / mode_proj_order / eps_proj_physical differs by %.3e from that of the default-configured object with the same parameters (flag %s, %s/%s)" % (what, maxabs(a, b), eff, T, case["sys"]), case)
+        # the static variable-level functions called WITHOUT the keyword use the documented default parametrisation (True)
+        vT = ref[True]["var"]
+        for what, fn, want in (("eq", C.calc_proj_eq_constraint_with_var, ref[True]["st_eq"]), ("ineq", C.calc_proj_ineq_constraint_with_var, ref[True]["st_in"])):
+            got = np.array(fn(c, vT.copy()), dtype=np.float64)
+            if got.shape != want.shape or maxabs(got, want) > 0:
+                ctx.violation("closures", name + ".calc_proj_%s_constraint_with_var" % what, "default-flag",
+                              "called without on_para_eq_constraint the function does not compute the projection in the documented default parametrisation (True): differs by %.3e (%s/%s)" % (maxabs(got, want), T, case["sys"]), case)
         for own in (True, False):
             # the object's own settings differ from everything that is requested below
             obj = build(T, c, x, m, own, mode_proj_order=("eq_ineq" if mode_other == "ineq_eq" else "ineq_eq"))
@@ -874,8 +924,10 @@ def chk_closures(ctx, case):
                         clo = mk()
                         out = np.array(clo(v), dtype=np.float64)
                         # history: the SAME closure object is used again on another point and then on the first one: no hidden state
-                        clo(var0 + scale * nrng.normal(size=var0.size))
+                        v1 = var0 + scale * nrng.normal(size=var0.size)
+                        other = np.array(clo(v1.copy()), dtype=np.float64)
                         again = np.array(clo(var0.copy()), dtype=np.float64)
+                        fresh = np.array(mk()(v1.copy()), dtype=np.float64)          # a NEW closure on the second point
                     except Exception as e:
                         if is_truncate_error(e):
                             raise
@@ -884,6 +936,9 @@ def chk_closures(ctx, case):
                         continue
                     if not np.array_equal(v, var0):
                         ctx.violation("closures", "QOperation." + fname, "mutates-argument", "closure modified its var argument (%s)" % combo, dict(case, own=own, req=FLAG_NAME[req]))
+                    if other.shape != fresh.shape or not np.array_equal(other, fresh):
+                        ctx.violation("closures", "QOperation." + fname, "depends-on-call-history",
+                                      "a closure that was already used on one var returns, for a second var, a different point than a fresh closure does (max change %.3e) (%s)" % (maxabs(other, fresh), combo), dict(case, own=own, req=FLAG_NAME[req]))
                     if not np.array_equal(again, out):
                         ctx.violation("closures", "QOperation." + fname, "depends-on-call-history",
                                       "the same closure returns a different point (max change %.3e) for the same var after having been called on another var (%s)" % (maxabs(again, out), combo), dict(case, own=own, req=FLAG_NAME[req]))
